@@ -368,6 +368,10 @@ def YEARFRAC(
     # Get Python internal types.
     start_date, end_date = start_date.value, end_date.value
 
+    # (The yearfrac package raises for equal dates at the end of February.)
+    if start_date == end_date:
+        return 0.0
+
     if basis == 0:  # US 30/360
         return yearfrac.yearfrac(start_date, end_date, '30e360_matu')
     elif basis == 1:  # Actual/actual
